@@ -184,6 +184,11 @@ def run_lifecycle(ctx, bfs, emit, sim, leak=None):
     E.write_ndjson(sp, scen)
     E.run_driver(ctx, "lifecycle", sp, tp, timeout=3000)
     rows = E.read_ndjson(tp)
+    skipped = sum(r.get("n", 0) for r in rows if r.get("ev") == "skipped")
+    rows = [r for r in rows if r.get("ev") != "skipped"]
+    if skipped:
+        ctx.log("%d relay-push scenario(s) were not started: 8 child processes before them died or ran into their time "
+                "bounds (a tree on which these scenarios leave the model's path)" % skipped)
     # scenarios during which the machine stalled (real time no longer matches the abstract clock) are
     # inconclusive: they are dropped, never judged
     bad = set(r["sc"] for r in rows if r.get("ev") == "inconclusive")
@@ -220,6 +225,8 @@ def run_lifecycle(ctx, bfs, emit, sim, leak=None):
         E.report(ctx, signature(r), "trace rejected at %s (scenario %s line %d): %s" %
                  (r["event"].get("ev"), r["sc"], r["line"], str(r["event"])[:300]),
                  {"scenario": scen[r["sc"]] if r["sc"] is not None and r["sc"] < len(scen) else None, "trace": r["trace"]})
+    if skipped and not rej:
+        raise E.Infra("%d relay-push scenarios were not run (slow or dead child processes) and nothing was rejected" % skipped)
     ctx.assumptions += ["sessions are real lal session objects on in-memory connections handed to the real ServerManager "
                         "callbacks (the network servers' accept loops are not part of the scenario)",
                         "Tick is driven through the verif hook VerifTick, a copy of the loop body of RunLoop",
